@@ -111,9 +111,18 @@ def gen_e2e(ctx, rng):
     m = rng.randint(2, ctx.scale(7, 12))
     B = gen.gen_generic_matrix(rng, n, m)
     k = min(n, m)
+    graded = k >= 3 and rng.random() < 0.2
+    if graded:
+        # nearly low rank: a rank-r integer core plus generic entries 2^-e times smaller – residual norms fall by
+        # a factor 2^e at step r, where the float code's norms must still be those of the trailing block
+        r = rng.randint(1, k - 2)
+        e = rng.choice([24, 30, 36, 44])
+        U = gen.gen_generic_matrix(rng, n, r, -4, 4); V = gen.gen_generic_matrix(rng, r, m, -4, 4)
+        B = U @ V + gen.gen_generic_matrix(rng, n, m) * 2.0 ** (-e)
+        ctx.count("e2e:nearly_low_rank")
     A = np.array(QR().fit(B.copy()).get_sensors()).copy()
     L = sorted(rng.sample(range(n), rng.randint(0, n)))
-    N = rng.randint(1, k)
+    N = rng.randint(r + 1, k) if graded else rng.randint(1, k)
     lo, hi = max(0, N - (n - len(L))), min(N, len(L))
     if lo > hi:
         return None
@@ -192,7 +201,7 @@ def tie_deviation(ctx, case, res, J, N):
             # equal up to the acceptance budget: |√a − √b| ≤ δ  (decided exactly)
             from ..oracles import score_ge
             from fractions import Fraction
-            return score_ge(a, Fraction(0), b, J.delta) and score_ge(b, Fraction(0), a, J.delta)
+            return score_ge(a, Fraction(0), b, J.deltas[j]) and score_ge(b, Fraction(0), a, J.deltas[j])
         i = p.index(r[j], j)
         p[j], p[i] = p[i], p[j]
     return False
